@@ -29,4 +29,22 @@ def groups():
                             ('mconv_agree', 'strToInt(ExtractionState&, std::string) / strToIntSilent(std::string): conversion agreement lemma', ['C02']),
                             ('merror', 'error(ExtractionState&, ParseError::Type, std::string)', ['C02'])):
         gs.append(Group('macro_' + fn[1:], props, real + ' (Compiler/src/macro.cpp)', 'c_' + fn, _build(fn), timeout=600))
+    gs += tail_groups()
     return gs
+
+
+def tail_groups():
+    import macrotail
+
+    def build(gw, rl):
+        macrotail.tail_mirror(gw)
+        name = macrotail.build_tail_unit(gw, rl)
+        repl = ['w_mS/c_mS']
+        if 'w_mstrToInt_callee(&es' in open(os.path.join(gw, name)).read():
+            repl.append('w_mstrToInt_callee/c_mstrToInt_callee')  # (a change may not call strToInt any more: nothing to replace then)
+        return {'cxx_sources': [os.path.join(gw, name)], 'cxxdefs': ['MODEL_SUBSTR_GHOST', 'MODEL_VECTOR_CAP=8'], 'dropped': DROPPED + ['the extraction grammar S/D/MD/A: used through the trusted contract c_mS'],
+                'cbmc_flags': ['--unwinding-assertions', '--no-malloc-may-fail', '--unwind', '4', '--unwindset', '__CPROVER_contracts_write_set_check_assigns_clause_inclusion.0:40'],
+                'min_obligations': 5, 'c_sources': [os.path.join(CONTRACTS, 'macro_tail.c')], 'entry': 'h_extract_macros',
+                'enforce': ['w_extract_macros/c_extract_macros'], 'replace': repl}
+    return [Group('macroU_extract_macros', ['C20', 'C02'], 'Theo::extract_macros (Compiler/src/macro.cpp): validation of insertion indices', 'c_extract_macros', build, timeout=900,
+                  bounded='BOUNDED stand-in: at most 1 macro with at most 2 body tokens, at most 2 earlier errors (vectors of capacity 8, --unwind 4 --unwinding-assertions); the extraction grammar is a trusted contract')]
